@@ -16,7 +16,7 @@ from .common import Leaf
 from .c16 import cmp_obs
 
 REQUIRED_WITNESSES = ['C', 'P']
-BOUNDS = {'quick': 'back-end products: requests with 15..33-byte symbolic targets and responses with 15..33-byte symbolic header values (crossing the 16/32-byte vector loops and their tails), header blocks <= 6 bytes, request buffers <= 6 bytes; profile products: requests <= 6, responses <= 9, header blocks <= 6, chunk sizes <= 4 bytes; runtime cell: all 3 CPU kinds x cell in {0,d} x scanner buffers 0..=40; lattice: all assignments of 4 cfg atoms x 3 architectures',
+BOUNDS = {'quick': 'back-end products: requests with 15..33-byte symbolic targets and responses with 15..33-byte symbolic header values (crossing the 16/32-byte vector loops and their tails; also buffers cut inside a 17..70-byte target / value), header blocks <= 6 bytes, request buffers <= 6 bytes; profile products: requests <= 6, responses <= 9, header blocks <= 6, chunk sizes <= 4 bytes; runtime cell: all 3 CPU kinds x cell in {0,d} x scanner buffers 0..=40; lattice: all assignments of 4 cfg atoms x 3 architectures',
           'thorough': 'targets/values to 70 bytes; header blocks <= 8; requests <= 8; responses <= 11; chunk <= 6'}
 OUTSIDE = 'that rustc accepts all 32 switch combinations (9 variants are built every run to obtain their MIR; C19 builds 16 no_std combinations); i686 and aarch64 cannot be replayed natively; big-endian targets'
 EXPLANATION = 'thread timing is decided as an invariant of the single relaxed atomic cell rather than by racing threads: with I = {0, d}, every store on every path writes d (I is preserved by any step of any thread from any reachable cell value) and get_runtime_feature returns d whatever it loaded'
@@ -116,6 +116,14 @@ def jobs(tier, seed):
             jb.small = True; J.append(jb)
             jb = product_job(P, f'value-L{L}-swar-vs-{v2}', G, sc('resp', L, prefix=b'HTTP/1.1 200 OK\r\nN: ', suffix=b'\r\n\r\n', api='parse', cap=1, fixed={i: NOEOL for i in range(L)}), bud,
                              f'response with a {L}-byte symbolic header value (any byte but HTAB/SP/CR/LF): word-at-a-time vs {v2}', family=f'value-{v2}', variants=['swar-rel', v2], extra={'variant2': v2, 'space_mul': 8 if v2.startswith('x86-rt') else 1}, **kw)
+            jb.small = True; J.append(jb)
+        # buffers that END inside the scanned field (the tail shorter than a word / a vector after full blocks)
+        for L in (T(tier, (17, 20, 33, 36, 39), (17, 20, 33, 36, 39, 65, 70)) if v2 != 'nostd' else ()):
+            jb = product_job(P, f'target-cut-L{L}-swar-vs-{v2}', G, sc('req', L, prefix=b'GET /', api='parse', cap=1, fixed={i: NOSP for i in range(L)}), bud,
+                             f'request cut inside a {L}-byte symbolic target: word-at-a-time vs {v2}', family=f'target-cut-{v2}', variants=['swar-rel', v2], extra={'variant2': v2, 'space_mul': 8 if v2.startswith('x86-rt') else 1}, **kw)
+            jb.small = True; J.append(jb)
+            jb = product_job(P, f'value-cut-L{L}-swar-vs-{v2}', G, sc('resp', L, prefix=b'HTTP/1.1 200 OK\r\nN: v', api='parse', cap=1, fixed={i: NOEOL for i in range(L)}), bud,
+                             f'response cut inside a {L}-byte symbolic header value: word-at-a-time vs {v2}', family=f'value-cut-{v2}', variants=['swar-rel', v2], extra={'variant2': v2, 'space_mul': 8 if v2.startswith('x86-rt') else 1}, **kw)
             jb.small = True; J.append(jb)
         J += deepen(P, G, f'hdr-swar-vs-{v2}', lambda n, v2=v2: sc('resp', n, prefix=RESP_LINE, api='cfg', fl=RESP_HDR_SYM, cap=1), range(T(tier, 5, 4), T(tier, 5, 7) + 1), bud,
                     'response start line + every {n}-byte header block, 4 header options symbolic: word-at-a-time vs ' + v2, 4, variants=['swar-rel', v2], extra={'variant2': v2, 'space_mul': 8 if v2.startswith('x86-rt') else 1}, **kw)
